@@ -56,6 +56,82 @@ def check(run, repo, tier):
   r3_collectors(run, w, rewriters)
   r4_process_renames(run, w)
   r5_two_passes(run, w, rewriters)
+  r6_per_record(run, w, rewriters)
+
+
+def r6_per_record(run, w, rewriters):
+  """The rename of one record's formula depends on that record (its resource table, its own
+  user attributes), not only on the formula text: every record's new text must come from its own
+  process_renames call with a renamer built for it -- never from a memo shared across records."""
+  R6 = run.rule("C17-R6", "each record's new formula text is the direct result of a "
+                "process_renames call made for that record with a renamer defined for it",
+                floor=3)
+  for fn, sites in rewriters:
+    for (n, c) in sites:
+      loops = [s for s in ast.walk(fn.node) if isinstance(s, ast.For) and
+               any(x is c for b in s.body for x in ast.walk(b))]
+      if not loops:
+        raise AnalysisError("%s: process_renames is not called inside a per-record loop"
+                            % fn.qualname)
+      loop = loops[-1]        # innermost
+      st = n.stmt
+      var = st.targets[0].id if isinstance(st, ast.Assign) and st.value is c and \
+          isinstance(st.targets[0], ast.Name) else None
+      ok = var is not None
+      wit = None
+      if ok:
+        # every definition of the variable is such a direct call
+        defs = [x for x in ast.walk(fn.node) if isinstance(x, ast.Assign) and
+                any(isinstance(t, ast.Name) and t.id == var for t in x.targets)]
+        direct = all(isinstance(d.value, ast.Call) and
+                     endswith(fn.name(d.value) or "", "process_renames") for d in defs)
+        # the call is not skipped for some records because of a memo: inside the loop body, the
+        # call is not under a test that reads a container written in the same loop
+        conds = []
+        def find(stmts, acc):
+          for b in stmts:
+            if b is st:
+              conds.extend(acc)
+              return True
+            for fld in ("body", "orelse"):
+              sub = getattr(b, fld, None)
+              if isinstance(sub, list) and sub and isinstance(sub[0], ast.stmt):
+                extra = [b.test] if isinstance(b, ast.If) else []
+                if find(sub, acc + extra):
+                  return True
+            if isinstance(b, ast.Try):
+              for h in b.handlers:
+                if find(h.body, acc):
+                  return True
+          return False
+        find(loop.body, [])
+        written = set()
+        for x in ast.walk(loop):
+          if isinstance(x, ast.Assign):
+            for t in x.targets:
+              if isinstance(t, ast.Subscript) and isinstance(t.value, ast.Name):
+                written.add(t.value.id)
+          if isinstance(x, ast.Call) and isinstance(x.func, ast.Attribute) and \
+              x.func.attr in ("setdefault", "update", "add") and isinstance(x.func.value, ast.Name):
+            written.add(x.func.value.id)
+        # containers (re)bound inside the loop are per-record scratch values, not memos
+        rebound = {t.id for x in ast.walk(loop) if isinstance(x, ast.Assign)
+                   for t in x.targets if isinstance(t, ast.Name)}
+        rebound |= {y.id for y in ast.walk(loop.target) if isinstance(y, ast.Name)}
+        written -= rebound
+        memo = [text(t) for t in conds
+                if {y.id for y in ast.walk(t) if isinstance(y, ast.Name)} & written]
+        # the renamer is defined for this record: a def inside the same loop body
+        renamer = c.args[2] if len(c.args) >= 3 else None
+        per_rec = isinstance(renamer, ast.Name) and any(
+          isinstance(x, ast.FunctionDef) and x.name == renamer.id
+          for b in loop.body for x in ast.walk(b))
+        ok = direct and not memo and per_rec
+        wit = None if ok else ("definitions not direct calls" if not direct else
+                               "call guarded by a memo: %s" % memo if memo else
+                               "renamer not defined per record")
+      run.ob(R6, fn.qualname, short(st, 90), "the new text of a record comes from its own "
+             "process_renames call", ok, witness=wit, fi=fn.fi, node=st)
 
 
 def _rewriters(w):
@@ -789,6 +865,10 @@ P = "sandbox/grist/predicate_formula.py"
 U = "sandbox/grist/useractions.py"
 
 VARIANTS = [
+  ("acl-rename-memo-by-text", "sandbox/grist/acl.py",
+   "    new_acl_formula = predicate_formula.process_renames(acl_formula, _ACLEntityCollector(), renamer)\n",
+   "    if acl_formula not in _memo:\n      _memo[acl_formula] = predicate_formula.process_renames(acl_formula, _ACLEntityCollector(), renamer)\n    new_acl_formula = _memo[acl_formula]\n", "C17-R6"),
+
   # the independently seeded bug: the two passes over _grist_ACLRules merged into one
   ("seeded-acl-rename-loops-merged", A,
    "  acl_resources_table = useractions.get_docmodel().aclResources.table\n"
